@@ -66,6 +66,20 @@ func recheck(oracle string, ops, res []string) (bool, string) {
 		if again != canon {
 			return true, fmt.Sprintf("canonicalising %q again gives %q", canon, again)
 		}
+	case "pcanon": // parse s ; pcanon s ; parse canon ; cmp s canon ; pcanon canon
+		if !strings.HasPrefix(res[0], "ok") {
+			return false, ""
+		}
+		canon := fw.Unhx(strings.TrimPrefix(res[1], "ok "))
+		if !strings.HasPrefix(res[2], "ok") {
+			return true, fmt.Sprintf("pypi.CanonVersion result %q does not parse", canon)
+		}
+		if res[3] != "ok 0" {
+			return true, fmt.Sprintf("pypi.CanonVersion result %q compares %s with the original", canon, res[3])
+		}
+		if res[4] != res[1] {
+			return true, fmt.Sprintf("pypi.CanonVersion is not idempotent on %q", canon)
+		}
 	case "samecanon":
 		// ops: parse a ; parse b ; cmp a b — equal canonical strings imply equal versions
 		ca, ok1 := field(res[0], "c")
@@ -101,6 +115,9 @@ func classify(oracle string, ops, res []string) string {
 	if oracle == "samecanon" {
 		n = 2
 	}
+	if oracle == "pcanon" {
+		n = 1
+	}
 	for i := 0; i < n; i++ {
 		sys, a := lineArgs(ops[i])
 		if c := classifyOne(sys, a[0]); c != "" {
@@ -130,6 +147,16 @@ func run(c *fw.Ctx) {
 				i1, _ := c.Opf("C10 parse %s %s", sys, fw.Hx(canon))
 				i2, _ := c.Opf("C10 cmp %s %s %s", sys, fw.Hx(s), fw.Hx(canon))
 				c.Check("roundtrip", i0, i1, i2)
+			}
+			if sys == semver.PyPI {
+				// the property's other observation point: pypi.CanonVersion
+				ip, rp := c.Opf("C10 pcanon %s", fw.Hx(s))
+				if pc := strings.TrimPrefix(rp, "ok "); pc != rp {
+					i1, _ := c.Opf("C10 parse %s %s", sys, pc)
+					i2, _ := c.Opf("C10 cmp %s %s %s", sys, fw.Hx(s), pc)
+					i3, _ := c.Opf("C10 pcanon %s", pc)
+					c.Check("pcanon", i0, ip, i1, i2, i3)
+				}
 			}
 			cs, _ := field(r0, "c")
 			byCanon[cs] = append(byCanon[cs], s)
